@@ -14,4 +14,5 @@ INVARIANT InFlightBounded
 INVARIANT NoOrphan
 PROPERTY NoWriteAfterFault
 PROPERTY NoStaleCompletion
+PROPERTY StaleLossHarmless
 CHECK_DEADLOCK FALSE
